@@ -70,11 +70,39 @@ namespace nmtools::array
             auto numel   = index::product(sizes_);
             // since size may be packed, the proper way to read dim is using len instead of sizes..+1
             auto new_dim = len(sizes_);
+            // NOTE: validate the request before changing anything,
+            // a refused resize must leave shape, strides and data unchanged
             if constexpr (meta::is_resizable_v<shape_type>) {
-                shape_.resize(new_dim);
+                // a bounded shape (e.g. static_vector) refuses a dim beyond its capacity
+                auto m_shape = shape_;
+                m_shape.resize(new_dim);
+                if ((size_t)len(m_shape) != (size_t)new_dim) {
+                    return false;
+                }
+            } else {
+                if ((size_t)len(shape_) != (size_t)new_dim) {
+                    return false;
+                }
+            }
+            if constexpr (meta::is_clipped_index_array_v<shape_type>) {
+                constexpr auto max_sizes = meta::to_value_v<shape_type>;
+                if ((size_t)len(sizes_) != (size_t)len(max_sizes)) {
+                    return false;
+                }
+                for (size_t i=0; i<len(max_sizes); i++) {
+                    if ((size_t)at(sizes_,i) > (size_t)at(max_sizes,i)) {
+                        return false;
+                    }
+                }
             }
             if constexpr (meta::is_resizable_v<buffer_type>) {
+                // a bounded buffer refuses (and is left unchanged) when numel exceeds its capacity
                 data_.resize(numel);
+            }
+            if constexpr (meta::is_resizable_v<shape_type>) {
+                if ((size_t)len(data_) == (size_t)numel) {
+                    shape_.resize(new_dim);
+                }
             }
             auto same_dim   = (size_t)len(shape_) == (size_t)new_dim;
             auto same_numel = [&](){
